@@ -1,6 +1,4 @@
-//go:build verif
-
-package pe
+package pegen
 
 // C12 generator: wallet first (credentials with claims from small pools, both proof formats), then a presentation
 // definition drawn from the productions of the JSON schema (presentation-definition.json) whose descriptors are
@@ -17,7 +15,7 @@ import (
 	"verif.local/h/jsonmut"
 )
 
-type c12Cred struct {
+type C12Cred struct {
 	Fmt     string         `json:"fmt"` // ldp_vc | jwt_vc
 	ID      string         `json:"id"`
 	Kind    string         `json:"kind"` // second entry of "type"
@@ -28,7 +26,7 @@ type c12Cred struct {
 	Role    string         `json:"role"`            // generator intent only: base | near | decoy
 }
 
-type c12Forge struct {
+type C12Forge struct {
 	Op  string            `json:"op"`
 	I   int               `json:"i"`
 	J   int               `json:"j"`
@@ -36,81 +34,81 @@ type c12Forge struct {
 	Mut *jsonmut.Mutation `json:"mut,omitempty"`
 }
 
-// c12Foreign is an entry of the credential map handed to ResolveConstraintsFields whose key is not a descriptor of
+// C12Foreign is an entry of the credential map handed to ResolveConstraintsFields whose key is not a descriptor of
 // this definition (auth/api/iam merges the maps of all submissions and hands the merged map to every definition).
-type c12Foreign struct {
+type C12Foreign struct {
 	ID   string `json:"id"`
 	Cred int    `json:"cred"` // wallet index (modulo)
 }
 
-type c12Case struct {
+type C12Case struct {
 	Def    json.RawMessage `json:"def"`
-	Wallet []c12Cred       `json:"wallet"`
+	Wallet []C12Cred       `json:"wallet"`
 	Env    string          `json:"env"`   // ld | jwt | ld-array | jwt-array
 	Extra  int             `json:"extra"` // array envelopes: 0 = alone, 1 = extra VP after, 2 = extra VP before
-	Forge  []c12Forge      `json:"forge"`
+	Forge  []C12Forge      `json:"forge"`
 	// O6: foreign entries added to the credential map, and how often each ResolveConstraintsFields call is repeated
 	// (the function ranges over a map: a defect may depend on iteration order)
-	Foreign []c12Foreign `json:"foreign,omitempty"`
+	Foreign []C12Foreign `json:"foreign,omitempty"`
 	Repeat  int          `json:"repeat,omitempty"`
 }
 
 var (
-	c12Kinds      = []string{"OrgCredential", "EmployeeCredential", "RoleCredential", "DecoyCredential"}
-	c12Issuers    = []string{"did:example:issuer1", "did:example:issuer2"}
-	c12Strs       = []string{"alice", "bob", "care-42", "Care Org", "IJbergen", "nurse", "x", "Zörg 7", "42"}
-	c12Nums       = []float64{0, 1, 2, 3.5, 42}
-	c12ProofTypes = []string{"JsonWebSignature2020", "Ed25519Signature2018", "EcdsaSecp256k1Signature2019"}
-	c12Algs       = []string{"ES256", "ES384", "EdDSA", "PS256", "ES256K"}
-	c12Groups     = []string{"A", "B", "C"}
+	C12Kinds      = []string{"OrgCredential", "EmployeeCredential", "RoleCredential", "DecoyCredential"}
+	C12Issuers    = []string{"did:example:issuer1", "did:example:issuer2"}
+	C12Strs       = []string{"alice", "bob", "care-42", "Care Org", "IJbergen", "nurse", "x", "Zörg 7", "42"}
+	C12Nums       = []float64{0, 1, 2, 3.5, 42}
+	C12ProofTypes = []string{"JsonWebSignature2020", "Ed25519Signature2018", "EcdsaSecp256k1Signature2019"}
+	C12Algs       = []string{"ES256", "ES384", "EdDSA", "PS256", "ES256K"}
+	C12Groups     = []string{"A", "B", "C"}
 )
 
-func c12Str(t *rapid.T, label string) string { return rapid.SampledFrom(c12Strs).Draw(t, label) }
+func C12Str(t *rapid.T, label string) string { return rapid.SampledFrom(C12Strs).Draw(t, label) }
 
-func c12StrArr(t *rapid.T, label string) []any {
+func C12StrArr(t *rapid.T, label string) []any {
 	n := rapid.IntRange(0, 3).Draw(t, label+".n")
 	out := make([]any, 0, n)
 	for i := 0; i < n; i++ {
-		out = append(out, c12Str(t, label))
+		out = append(out, C12Str(t, label))
 	}
 	return out
 }
 
-func c12NumArr(t *rapid.T, label string) []any {
+func C12NumArr(t *rapid.T, label string) []any {
 	n := rapid.IntRange(1, 3).Draw(t, label+".n")
 	out := make([]any, 0, n)
 	for i := 0; i < n; i++ {
-		out = append(out, rapid.SampledFrom(c12Nums).Draw(t, label))
+		out = append(out, rapid.SampledFrom(C12Nums).Draw(t, label))
 	}
 	return out
 }
 
-// c12GenSubject draws the claims of one credential. Shapes are deliberately varied per location (scalar, array,
+// C12GenSubject draws the claims of one credential. Shapes are deliberately varied per location (scalar, array,
 // other scalar type, object) because that is where descriptors and credentials disagree in practice.
-func c12GenSubject(t *rapid.T) map[string]any {
+func C12GenSubject(t *rapid.T) map[string]any {
 	s := map[string]any{}
 	shape := func(label string, w ...string) string { return rapid.SampledFrom(w).Draw(t, label) }
 	switch shape("name", "str", "str", "str", "arr", "num", "absent") {
 	case "str":
-		s["name"] = c12Str(t, "name")
+		s["name"] = C12Str(t, "name")
 	case "arr":
-		s["name"] = c12StrArr(t, "name")
+		s["name"] = C12StrArr(t, "name")
 	case "num":
-		s["name"] = rapid.SampledFrom(c12Nums).Draw(t, "name")
+		s["name"] = rapid.SampledFrom(C12Nums).Draw(t, "name")
 	}
 	switch shape("role", "str", "str", "arr", "arr", "absent") {
 	case "str":
-		s["role"] = c12Str(t, "role")
+		s["role"] = C12Str(t, "role")
 	case "arr":
-		s["role"] = c12StrArr(t, "role")
+		s["role"] = C12StrArr(t, "role")
 	}
 	switch shape("level", "num", "num", "strnum", "arr", "absent", "absent") {
 	case "num":
-		s["level"] = rapid.SampledFrom(c12Nums).Draw(t, "level")
+		s["level"] = rapid.SampledFrom(C12Nums).Draw(t, "level")
 	case "strnum":
 		s["level"] = "42"
 	case "arr":
-		s["level"] = c12NumArr(t, "level")
+		s["level"] = C12NumArr(t, "level")
 	}
 	switch shape("active", "bool", "bool", "str", "absent", "absent") {
 	case "bool":
@@ -120,50 +118,50 @@ func c12GenSubject(t *rapid.T) map[string]any {
 	}
 	switch shape("tags", "arr", "arr", "numarr", "str", "absent") {
 	case "arr":
-		s["tags"] = c12StrArr(t, "tags")
+		s["tags"] = C12StrArr(t, "tags")
 	case "numarr":
-		s["tags"] = c12NumArr(t, "tags")
+		s["tags"] = C12NumArr(t, "tags")
 	case "str":
-		s["tags"] = c12Str(t, "tags")
+		s["tags"] = C12Str(t, "tags")
 	}
 	switch shape("org", "obj", "obj", "str", "absent") {
 	case "obj":
-		o := map[string]any{"name": c12Str(t, "org.name")}
+		o := map[string]any{"name": C12Str(t, "org.name")}
 		if rapid.Bool().Draw(t, "org.city?") {
-			o["city"] = c12Str(t, "org.city")
+			o["city"] = C12Str(t, "org.city")
 		}
 		s["org"] = o
 	case "str":
-		s["org"] = c12Str(t, "org")
+		s["org"] = C12Str(t, "org")
 	}
 	if rapid.IntRange(0, 3).Draw(t, "items?") == 3 {
 		n := rapid.IntRange(1, 2).Draw(t, "items.n")
 		var items []any
 		for i := 0; i < n; i++ {
-			items = append(items, map[string]any{"code": c12Str(t, "items.code"), "n": rapid.SampledFrom(c12Nums).Draw(t, "items.n")})
+			items = append(items, map[string]any{"code": C12Str(t, "items.code"), "n": rapid.SampledFrom(C12Nums).Draw(t, "items.n")})
 		}
 		s["items"] = items
 	}
 	if rapid.IntRange(0, 7).Draw(t, "odd?") == 7 {
-		s["my key"] = c12Str(t, "mykey")
+		s["my key"] = C12Str(t, "mykey")
 	}
 	return s
 }
 
-func c12GenCred(t *rapid.T, idx int, role string) c12Cred {
-	c := c12Cred{
+func C12GenCred(t *rapid.T, idx int, role string) C12Cred {
+	c := C12Cred{
 		Fmt:     rapid.SampledFrom([]string{"ldp_vc", "ldp_vc", "jwt_vc"}).Draw(t, "fmt"),
 		ID:      fmt.Sprintf("urn:vc:%d", idx),
-		Kind:    rapid.SampledFrom(c12Kinds).Draw(t, "kind"),
-		Issuer:  rapid.SampledFrom(c12Issuers).Draw(t, "issuer"),
-		Subject: c12GenSubject(t),
+		Kind:    rapid.SampledFrom(C12Kinds).Draw(t, "kind"),
+		Issuer:  rapid.SampledFrom(C12Issuers).Draw(t, "issuer"),
+		Subject: C12GenSubject(t),
 		Role:    role,
 	}
-	c12GenProof(t, &c)
+	C12GenProof(t, &c)
 	return c
 }
 
-func c12GenProof(t *rapid.T, c *c12Cred) {
+func C12GenProof(t *rapid.T, c *C12Cred) {
 	c.NoSig = false
 	if c.Fmt == "ldp_vc" {
 		c.Proof = rapid.SampledFrom([]string{"JsonWebSignature2020", "JsonWebSignature2020", "Ed25519Signature2018", "EcdsaSecp256k1Signature2019", ""}).Draw(t, "proof")
@@ -176,17 +174,17 @@ func c12GenProof(t *rapid.T, c *c12Cred) {
 // ---------------------------------------------------------------------------------------------------------------------
 // leaves of a credential that a field can point to
 
-type c12Leaf struct {
+type C12Leaf struct {
 	steps string // path below the subject root, e.g. ".org.name" or ".items[0].code" or "['my key']"
 	top   string // instead: a top-level path ("$.type", "$.type[1]", "$.issuer", "$.id")
 	val   any
 }
 
-func c12Leaves(c c12Cred) []c12Leaf {
-	var out []c12Leaf
+func C12Leaves(c C12Cred) []C12Leaf {
+	var out []C12Leaf
 	var walk func(prefix string, v any, depth int)
 	walk = func(prefix string, v any, depth int) {
-		out = append(out, c12Leaf{steps: prefix, val: v})
+		out = append(out, C12Leaf{steps: prefix, val: v})
 		switch tv := v.(type) {
 		case map[string]any:
 			keys := make([]string, 0, len(tv))
@@ -195,7 +193,7 @@ func c12Leaves(c c12Cred) []c12Leaf {
 			}
 			sort.Strings(keys)
 			for _, k := range keys {
-				walk(prefix+c12Member(k), tv[k], depth+1)
+				walk(prefix+C12Member(k), tv[k], depth+1)
 			}
 		case []any:
 			for i, e := range tv {
@@ -209,61 +207,61 @@ func c12Leaves(c c12Cred) []c12Leaf {
 	}
 	sort.Strings(keys)
 	for _, k := range keys {
-		walk(c12Member(k), c.Subject[k], 0)
+		walk(C12Member(k), c.Subject[k], 0)
 	}
 	out = append(out,
-		c12Leaf{top: "$.type", val: []any{"VerifiableCredential", c.Kind}},
-		c12Leaf{top: "$.type[1]", val: c.Kind},
-		c12Leaf{top: "$.issuer", val: c.Issuer},
+		C12Leaf{top: "$.type", val: []any{"VerifiableCredential", c.Kind}},
+		C12Leaf{top: "$.type[1]", val: c.Kind},
+		C12Leaf{top: "$.issuer", val: c.Issuer},
 	)
 	if c.ID != "" {
-		out = append(out, c12Leaf{top: "$.id", val: c.ID})
+		out = append(out, C12Leaf{top: "$.id", val: c.ID})
 	}
 	return out
 }
 
-func c12Member(k string) string {
-	if c12IsIdent(k) {
+func C12Member(k string) string {
+	if C12IsIdent(k) {
 		return "." + k
 	}
 	// (the JSONPath library only accepts double-quoted names in brackets)
 	return `["` + k + `"]`
 }
 
-func c12SubjectRoot(format string) string {
+func C12SubjectRoot(format string) string {
 	if format == "jwt_vc" {
 		return "$.credentialSubject[0]"
 	}
 	return "$.credentialSubject"
 }
 
-func (l c12Leaf) path(format string) string {
+func (l C12Leaf) path(format string) string {
 	if l.top != "" {
 		return l.top
 	}
-	return c12SubjectRoot(format) + l.steps
+	return C12SubjectRoot(format) + l.steps
 }
 
 // ---------------------------------------------------------------------------------------------------------------------
 // filters
 
-func c12Quote(s string) string {
+func C12Quote(s string) string {
 	// regexp.QuoteMeta without importing regexp here: the pools only contain '-' '.' ' ' and alphanumerics
 	r := strings.NewReplacer(".", `\.`, "-", "-", "(", `\(`, ")", `\)`, "+", `\+`, "*", `\*`, "?", `\?`, "[", `\[`, "]", `\]`, "^", `\^`, "$", `\$`, "|", `\|`, "{", `\{`, "}", `\}`, `\`, `\\`)
 	return r.Replace(s)
 }
 
-// c12PatternFor draws a pattern (ECMA-262 and RE2 agree on everything produced here) related to string s.
+// C12PatternFor draws a pattern (ECMA-262 and RE2 agree on everything produced here) related to string s.
 // friendly: only templates that match s with at most one capture group.
-func c12PatternFor(t *rapid.T, s string, friendly bool) string {
+func C12PatternFor(t *rapid.T, s string, friendly bool) string {
 	rs := []rune(s)
 	half := len(rs) / 2
-	pre, suf := c12Quote(string(rs[:half])), c12Quote(string(rs[half:]))
+	pre, suf := C12Quote(string(rs[:half])), C12Quote(string(rs[half:]))
 	matching := []string{
-		"^" + c12Quote(s) + "$",  // exact
+		"^" + C12Quote(s) + "$",  // exact
 		"^" + pre,                // prefix
 		suf + "$",                // suffix
-		c12Quote(s),              // substring
+		C12Quote(s),              // substring
 		"^" + pre + "(.*)$",      // one capture: the rest
 		"^(" + pre + ")",         // one capture: the prefix
 		"^(?:" + pre + ")" + suf, // non-capturing group
@@ -286,13 +284,13 @@ func c12PatternFor(t *rapid.T, s string, friendly bool) string {
 	return rapid.SampledFrom(others).Draw(t, "pattern.other")
 }
 
-// c12FilterFor draws a filter for a value: mostly satisfied, often just off, sometimes of another type.
-func c12FilterFor(t *rapid.T, v any, friendly bool) map[string]any {
+// C12FilterFor draws a filter for a value: mostly satisfied, often just off, sometimes of another type.
+func C12FilterFor(t *rapid.T, v any, friendly bool) map[string]any {
 	pickStr := func(vals []string) string {
 		if len(vals) > 0 && (friendly || rapid.IntRange(0, 3).Draw(t, "hit") < 3) {
 			return rapid.SampledFrom(vals).Draw(t, "from-value")
 		}
-		return c12Str(t, "other")
+		return C12Str(t, "other")
 	}
 	strFilter := func(vals []string) map[string]any {
 		f := map[string]any{"type": "string"}
@@ -312,11 +310,11 @@ func c12FilterFor(t *rapid.T, v any, friendly bool) map[string]any {
 			}
 			f["enum"] = e
 		case "pattern":
-			f["pattern"] = c12PatternFor(t, pickStr(vals), friendly)
+			f["pattern"] = C12PatternFor(t, pickStr(vals), friendly)
 		case "const+pattern":
 			s := pickStr(vals)
 			f["const"] = s
-			f["pattern"] = c12PatternFor(t, s, friendly)
+			f["pattern"] = C12PatternFor(t, s, friendly)
 		}
 		return f
 	}
@@ -385,19 +383,19 @@ func c12FilterFor(t *rapid.T, v any, friendly bool) map[string]any {
 // ---------------------------------------------------------------------------------------------------------------------
 // definition
 
-func c12GenFormat(t *rapid.T, label string) map[string]any {
+func C12GenFormat(t *rapid.T, label string) map[string]any {
 	f := map[string]any{}
 	if rapid.IntRange(0, 3).Draw(t, label+".ldp?") > 0 {
 		e := map[string]any{}
 		if rapid.IntRange(0, 7).Draw(t, label+".ldp.list?") < 7 {
-			e["proof_type"] = c12Subset(t, label+".pt", c12ProofTypes, []string{"JsonWebSignature2020"})
+			e["proof_type"] = C12Subset(t, label+".pt", C12ProofTypes, []string{"JsonWebSignature2020"})
 		}
 		f["ldp_vc"] = e
 	}
 	if rapid.IntRange(0, 3).Draw(t, label+".jwt?") > 0 {
 		e := map[string]any{}
 		if rapid.IntRange(0, 7).Draw(t, label+".jwt.list?") < 7 {
-			e["alg"] = c12Subset(t, label+".alg", c12Algs, []string{"ES256"})
+			e["alg"] = C12Subset(t, label+".Alg", C12Algs, []string{"ES256"})
 		}
 		f["jwt_vc"] = e
 	}
@@ -408,7 +406,7 @@ func c12GenFormat(t *rapid.T, label string) map[string]any {
 	return f
 }
 
-func c12Subset(t *rapid.T, label string, pool []string, bias []string) []any {
+func C12Subset(t *rapid.T, label string, pool []string, bias []string) []any {
 	n := rapid.IntRange(1, 3).Draw(t, label+".n")
 	var out []any
 	for i := 0; i < n; i++ {
@@ -421,19 +419,19 @@ func c12Subset(t *rapid.T, label string, pool []string, bias []string) []any {
 	return out
 }
 
-type c12DescPlan struct {
+type C12DescPlan struct {
 	target int              // wallet index the descriptor was aimed at, -1 = none
 	leaves []string         // subject member (first step) each field points at, "" for top-level
 	fields []map[string]any // the generated field objects, parallel to leaves (may still be edited before marshalling)
 }
 
-func c12GenField(t *rapid.T, fid string, wallet []c12Cred, target int, friendly bool) (map[string]any, string) {
+func C12GenField(t *rapid.T, fid string, wallet []C12Cred, target int, friendly bool) (map[string]any, string) {
 	f := map[string]any{}
-	var leaf c12Leaf
+	var leaf C12Leaf
 	fmtOf := "ldp_vc"
 	if target >= 0 {
 		fmtOf = wallet[target].Fmt
-		ls := c12Leaves(wallet[target])
+		ls := C12Leaves(wallet[target])
 		leaf = rapid.SampledFrom(ls).Draw(t, "leaf")
 	} else {
 		// untargeted: a location from the catalogue with a pool value
@@ -441,15 +439,15 @@ func c12GenField(t *rapid.T, fid string, wallet []c12Cred, target int, friendly 
 		var v any
 		switch loc {
 		case ".level":
-			v = rapid.SampledFrom(c12Nums).Draw(t, "v")
+			v = rapid.SampledFrom(C12Nums).Draw(t, "v")
 		case ".active":
 			v = rapid.Bool().Draw(t, "v")
 		case ".tags":
-			v = c12StrArr(t, "v")
+			v = C12StrArr(t, "v")
 		default:
-			v = c12Str(t, "v")
+			v = C12Str(t, "v")
 		}
-		leaf = c12Leaf{steps: loc, val: v}
+		leaf = C12Leaf{steps: loc, val: v}
 		fmtOf = rapid.SampledFrom([]string{"ldp_vc", "jwt_vc"}).Draw(t, "ufmt")
 	}
 	other := "jwt_vc"
@@ -469,9 +467,9 @@ func c12GenField(t *rapid.T, fid string, wallet []c12Cred, target int, friendly 
 	case "both-rev":
 		paths = []any{leaf.path(other), leaf.path(fmtOf)}
 	case "missing-first":
-		paths = []any{c12SubjectRoot(fmtOf) + ".missing.deeper", leaf.path(fmtOf)}
+		paths = []any{C12SubjectRoot(fmtOf) + ".missing.deeper", leaf.path(fmtOf)}
 	case "missing-only":
-		paths = []any{c12SubjectRoot(fmtOf) + ".missing"}
+		paths = []any{C12SubjectRoot(fmtOf) + ".missing"}
 	}
 	if rapid.IntRange(0, 9).Draw(t, "bracket") == 9 {
 		// same path in bracket notation
@@ -481,7 +479,7 @@ func c12GenField(t *rapid.T, fid string, wallet []c12Cred, target int, friendly 
 	}
 	f["path"] = paths
 	if rapid.IntRange(0, 4).Draw(t, "filter?") > 0 {
-		if flt := c12FilterFor(t, leaf.val, friendly); flt != nil {
+		if flt := C12FilterFor(t, leaf.val, friendly); flt != nil {
 			f["filter"] = flt
 		}
 	}
@@ -506,7 +504,7 @@ func c12GenField(t *rapid.T, fid string, wallet []c12Cred, target int, friendly 
 	return f, first
 }
 
-func c12GenReq(t *rapid.T, depth int, groups []string) map[string]any {
+func C12GenReq(t *rapid.T, depth int, groups []string) map[string]any {
 	r := map[string]any{}
 	rule := rapid.SampledFrom([]string{"all", "pick", "pick", "pick"}).Draw(t, "rule")
 	r["rule"] = rule
@@ -559,7 +557,7 @@ func c12GenReq(t *rapid.T, depth int, groups []string) map[string]any {
 		n := rapid.IntRange(1, 3).Draw(t, "nested.n")
 		var nested []any
 		for i := 0; i < n; i++ {
-			nested = append(nested, c12GenReq(t, depth+1, groups))
+			nested = append(nested, C12GenReq(t, depth+1, groups))
 		}
 		r["from_nested"] = nested
 	} else {
@@ -572,8 +570,8 @@ func c12GenReq(t *rapid.T, depth int, groups []string) map[string]any {
 	return r
 }
 
-// c12GenTieredReq: one requirement over from_nested, one nested member per group (sometimes wrapped once more).
-func c12GenTieredReq(t *rapid.T, groups []string) map[string]any {
+// C12GenTieredReq: one requirement over from_nested, one nested member per group (sometimes wrapped once more).
+func C12GenTieredReq(t *rapid.T, groups []string) map[string]any {
 	var nested []any
 	for _, g := range groups {
 		leaf := map[string]any{"from": g}
@@ -621,19 +619,19 @@ func c12GenTieredReq(t *rapid.T, groups []string) map[string]any {
 	return top
 }
 
-func c12ReqGroups(r map[string]any, into map[string]bool) {
+func C12ReqGroups(r map[string]any, into map[string]bool) {
 	if f, ok := r["from"].(string); ok {
 		into[f] = true
 	}
 	if n, ok := r["from_nested"].([]any); ok {
 		for _, e := range n {
-			c12ReqGroups(e.(map[string]any), into)
+			C12ReqGroups(e.(map[string]any), into)
 		}
 	}
 }
 
-func c12Gen(t *rapid.T) c12Case {
-	var c c12Case
+func C12Gen(t *rapid.T) C12Case {
+	var c C12Case
 	// 1. base wallet
 	// "tiered" cases (1 in 5): 4-6 descriptors in 2-3 groups of >= 2, each aimed at its own credential, and one
 	// requirement over from_nested whose members are all/pick over those groups, with count/min/max >= 2 likely.
@@ -649,7 +647,7 @@ func c12Gen(t *rapid.T) c12Case {
 		friendly = true
 	}
 	for i := 0; i < nBase; i++ {
-		c.Wallet = append(c.Wallet, c12GenCred(t, i, "base"))
+		c.Wallet = append(c.Wallet, C12GenCred(t, i, "base"))
 	}
 	next := nBase
 	// credential identity: ids are not unique in the wild (issuers numbering per subject, a re-issued credential next to
@@ -704,7 +702,7 @@ func c12Gen(t *rapid.T) c12Case {
 		def["purpose"] = "verification"
 	}
 	if !tiered && rapid.IntRange(0, 3).Draw(t, "defformat?") == 3 {
-		def["format"] = c12GenFormat(t, "defformat")
+		def["format"] = C12GenFormat(t, "defformat")
 	}
 	nDesc := rapid.IntRange(1, 4).Draw(t, "nDesc")
 	withReqs := rapid.Bool().Draw(t, "reqs?")
@@ -722,11 +720,11 @@ func c12Gen(t *rapid.T) c12Case {
 		}
 	}
 	var descs []any
-	var plans []c12DescPlan
+	var plans []C12DescPlan
 	usedGroups := map[string]bool{}
 	for d := 0; d < nDesc; d++ {
 		desc := map[string]any{"id": fmt.Sprintf("d%d", d)}
-		plan := c12DescPlan{target: -1}
+		plan := C12DescPlan{target: -1}
 		if len(c.Wallet) > 0 && (friendly || rapid.IntRange(0, 5).Draw(t, "targeted") < 5) {
 			plan.target = rapid.IntRange(0, len(c.Wallet)-1).Draw(t, "target")
 			if friendly && rapid.IntRange(0, 3).Draw(t, "spread") < 3 {
@@ -742,7 +740,7 @@ func c12Gen(t *rapid.T) c12Case {
 		if tiered || nFields > 0 || rapid.Bool().Draw(t, "emptyfields") {
 			fields := []any{}
 			for i := 0; i < nFields; i++ {
-				f, first := c12GenField(t, fmt.Sprintf("f%d_%d", d, i), c.Wallet, plan.target, friendly)
+				f, first := C12GenField(t, fmt.Sprintf("f%d_%d", d, i), c.Wallet, plan.target, friendly)
 				fields = append(fields, f)
 				plan.leaves = append(plan.leaves, first)
 				plan.fields = append(plan.fields, f)
@@ -774,7 +772,7 @@ func c12Gen(t *rapid.T) c12Case {
 					if c.Wallet[plan.target].ID == "" {
 						break
 					}
-					fields = append(fields, map[string]any{"path": []any{"$.id"}, "filter": map[string]any{"type": "string", "pattern": "^" + c12Quote(c.Wallet[plan.target].ID) + "$"}})
+					fields = append(fields, map[string]any{"path": []any{"$.id"}, "filter": map[string]any{"type": "string", "pattern": "^" + C12Quote(c.Wallet[plan.target].ID) + "$"}})
 					plan.leaves = append(plan.leaves, "")
 				}
 			}
@@ -785,7 +783,7 @@ func c12Gen(t *rapid.T) c12Case {
 		}
 		desc["constraints"] = cons
 		if !tiered && rapid.IntRange(0, 3).Draw(t, "descformat?") == 3 {
-			desc["format"] = c12GenFormat(t, "descformat")
+			desc["format"] = C12GenFormat(t, "descformat")
 		}
 		if rapid.IntRange(0, 4).Draw(t, "descmeta") == 4 {
 			desc["name"] = fmt.Sprintf("descriptor %d", d)
@@ -794,9 +792,9 @@ func c12Gen(t *rapid.T) c12Case {
 		if tiered {
 			desc["group"] = []any{tierGroups[d*len(tierGroups)/nDesc]}
 		} else if withReqs && rapid.IntRange(0, 9).Draw(t, "grouped") < 9 {
-			g := []any{rapid.SampledFrom(c12Groups).Draw(t, "group")}
+			g := []any{rapid.SampledFrom(C12Groups).Draw(t, "group")}
 			if rapid.IntRange(0, 3).Draw(t, "group2?") == 3 {
-				g2 := rapid.SampledFrom(c12Groups).Draw(t, "group2")
+				g2 := rapid.SampledFrom(C12Groups).Draw(t, "group2")
 				if g2 != g[0] {
 					g = append(g, g2)
 				}
@@ -813,10 +811,10 @@ func c12Gen(t *rapid.T) c12Case {
 	}
 	def["input_descriptors"] = descs
 	if tiered {
-		def["submission_requirements"] = []any{c12GenTieredReq(t, tierGroups)}
+		def["submission_requirements"] = []any{C12GenTieredReq(t, tierGroups)}
 	} else if withReqs {
 		pool := make([]string, 0, 3)
-		for _, g := range c12Groups {
+		for _, g := range C12Groups {
 			if usedGroups[g] {
 				pool = append(pool, g)
 			}
@@ -828,15 +826,15 @@ func c12Gen(t *rapid.T) c12Case {
 		var reqs []any
 		covered := map[string]bool{}
 		for i := 0; i < nReq; i++ {
-			r := c12GenReq(t, 0, pool)
-			c12ReqGroups(r, covered)
+			r := C12GenReq(t, 0, pool)
+			C12ReqGroups(r, covered)
 			reqs = append(reqs, r)
 		}
 		// usually make the definition consistent: every used group is referenced
 		if rapid.IntRange(0, 9).Draw(t, "cover") < 9 {
 			for _, g := range pool {
 				if !covered[g] {
-					r := c12GenReq(t, 2, []string{g})
+					r := C12GenReq(t, 2, []string{g})
 					delete(r, "from_nested")
 					r["from"] = g
 					reqs = append(reqs, r)
@@ -854,7 +852,7 @@ func c12Gen(t *rapid.T) c12Case {
 			continue
 		}
 		src := c.Wallet[plan.target]
-		near := c12Cred{Fmt: src.Fmt, ID: fmt.Sprintf("urn:vc:%d", next), Kind: src.Kind, Issuer: src.Issuer, Proof: src.Proof, NoSig: src.NoSig, Role: "near",
+		near := C12Cred{Fmt: src.Fmt, ID: fmt.Sprintf("urn:vc:%d", next), Kind: src.Kind, Issuer: src.Issuer, Proof: src.Proof, NoSig: src.NoSig, Role: "near",
 			Subject: jsonmut.Clone(src.Subject).(map[string]any)}
 		next++
 		var members []string
@@ -882,27 +880,27 @@ func c12Gen(t *rapid.T) c12Case {
 		case "optional-object":
 			i := rapid.SampledFrom(objCandidates).Draw(t, "objfield")
 			plan.fields[i]["optional"] = true
-			near.Subject[plan.leaves[i][1:]] = map[string]any{"name": c12Str(t, "objname"), "value": c12Str(t, "objvalue")}
+			near.Subject[plan.leaves[i][1:]] = map[string]any{"name": C12Str(t, "objname"), "value": C12Str(t, "objvalue")}
 		case "claim":
-			c12MutateClaim(t, near.Subject, rapid.SampledFrom(members).Draw(t, "member"))
+			C12MutateClaim(t, near.Subject, rapid.SampledFrom(members).Draw(t, "member"))
 		case "format":
 			if near.Fmt == "ldp_vc" {
 				near.Fmt = "jwt_vc"
 			} else {
 				near.Fmt = "ldp_vc"
 			}
-			c12GenProof(t, &near)
+			C12GenProof(t, &near)
 		case "proof":
-			c12GenProof(t, &near)
+			C12GenProof(t, &near)
 		case "kind":
-			near.Kind = rapid.SampledFrom(c12Kinds).Draw(t, "nearkind")
+			near.Kind = rapid.SampledFrom(C12Kinds).Draw(t, "nearkind")
 		case "same":
 			// an equally good credential (only the id differs): first-match order becomes visible
 		}
 		_ = d
 		// before or after the target
 		pos := rapid.IntRange(0, len(c.Wallet)).Draw(t, "nearpos")
-		c.Wallet = append(c.Wallet, c12Cred{})
+		c.Wallet = append(c.Wallet, C12Cred{})
 		copy(c.Wallet[pos+1:], c.Wallet[pos:])
 		c.Wallet[pos] = near
 		// keep plan targets pointing at the same credentials
@@ -914,9 +912,9 @@ func c12Gen(t *rapid.T) c12Case {
 	}
 	for len(c.Wallet) < 6 && rapid.IntRange(0, 3).Draw(t, "decoy?") == 3 {
 		pos := rapid.IntRange(0, len(c.Wallet)).Draw(t, "decoypos")
-		dc := c12GenCred(t, next, "decoy")
+		dc := C12GenCred(t, next, "decoy")
 		next++
-		c.Wallet = append(c.Wallet, c12Cred{})
+		c.Wallet = append(c.Wallet, C12Cred{})
 		copy(c.Wallet[pos+1:], c.Wallet[pos:])
 		c.Wallet[pos] = dc
 	}
@@ -924,7 +922,7 @@ func c12Gen(t *rapid.T) c12Case {
 	// credentials added under an id that is already in use, and exact duplicates
 	for len(c.Wallet) > 0 && len(c.Wallet) < 8 && rapid.IntRange(0, 4).Draw(t, "idgame?") == 4 {
 		src := c.Wallet[rapid.IntRange(0, len(c.Wallet)-1).Draw(t, "idgame.src")]
-		cp := c12Cred{Fmt: src.Fmt, ID: src.ID, Kind: src.Kind, Issuer: src.Issuer, Proof: src.Proof, NoSig: src.NoSig, Role: "same-id",
+		cp := C12Cred{Fmt: src.Fmt, ID: src.ID, Kind: src.Kind, Issuer: src.Issuer, Proof: src.Proof, NoSig: src.NoSig, Role: "same-id",
 			Subject: jsonmut.Clone(src.Subject).(map[string]any)}
 		switch rapid.SampledFrom([]string{"other-format", "reissue", "exact-duplicate", "decoy-same-id"}).Draw(t, "idgame") {
 		case "other-format":
@@ -933,21 +931,21 @@ func c12Gen(t *rapid.T) c12Case {
 			} else {
 				cp.Fmt = "ldp_vc"
 			}
-			c12GenProof(t, &cp)
+			C12GenProof(t, &cp)
 		case "reissue":
 			cp.Subject["reissued"] = rapid.SampledFrom([]string{"2024", "2025"}).Draw(t, "idgame.reissued")
 			if rapid.Bool().Draw(t, "idgame.claim") {
-				cp.Subject["name"] = c12Str(t, "idgame.name")
+				cp.Subject["name"] = C12Str(t, "idgame.name")
 			}
 		case "exact-duplicate":
 			cp.Role = "duplicate"
 		case "decoy-same-id":
-			cp = c12GenCred(t, next, "decoy-same-id")
+			cp = C12GenCred(t, next, "decoy-same-id")
 			next++
 			cp.ID = src.ID
 		}
 		pos := rapid.IntRange(0, len(c.Wallet)).Draw(t, "idgame.pos")
-		c.Wallet = append(c.Wallet, c12Cred{})
+		c.Wallet = append(c.Wallet, C12Cred{})
 		copy(c.Wallet[pos+1:], c.Wallet[pos:])
 		c.Wallet[pos] = cp
 	}
@@ -965,7 +963,7 @@ func c12Gen(t *rapid.T) c12Case {
 	}
 	nForeign := rapid.SampledFrom([]int{1, 0, 2, 3}).Draw(t, "nForeign")
 	for i := 0; i < nForeign; i++ {
-		c.Foreign = append(c.Foreign, c12Foreign{
+		c.Foreign = append(c.Foreign, C12Foreign{
 			ID:   rapid.SampledFrom([]string{"other-definition-org", "other-definition-user", "d0 ", "D0", ""}).Draw(t, "foreign.id"),
 			Cred: rapid.IntRange(0, 5).Draw(t, "foreign.cred"),
 		})
@@ -973,13 +971,13 @@ func c12Gen(t *rapid.T) c12Case {
 	c.Repeat = rapid.IntRange(8, 16).Draw(t, "repeat")
 	nForge := rapid.IntRange(1, 4).Draw(t, "nForge")
 	for i := 0; i < nForge; i++ {
-		c.Forge = append(c.Forge, c12GenForge(t))
+		c.Forge = append(c.Forge, C12GenForge(t))
 	}
 	return c
 }
 
-// c12MutateClaim changes the claim that path `steps` (below the subject) starts with.
-func c12MutateClaim(t *rapid.T, subject map[string]any, steps string) {
+// C12MutateClaim changes the claim that path `steps` (below the subject) starts with.
+func C12MutateClaim(t *rapid.T, subject map[string]any, steps string) {
 	// first member name of the path
 	name := ""
 	if strings.HasPrefix(steps, ".") {
@@ -996,27 +994,27 @@ func c12MutateClaim(t *rapid.T, subject map[string]any, steps string) {
 	}
 	old, ok := subject[name]
 	if !ok {
-		subject[name] = c12Str(t, "newclaim")
+		subject[name] = C12Str(t, "newclaim")
 		return
 	}
 	switch rapid.SampledFrom([]string{"other", "other", "wrap", "wrap-other", "empty-arr", "delete", "confuse", "object", "numarr"}).Draw(t, "claimmut") {
 	case "other":
 		switch old.(type) {
 		case string:
-			subject[name] = c12Str(t, "otherval")
+			subject[name] = C12Str(t, "otherval")
 		case float64:
-			subject[name] = rapid.SampledFrom(c12Nums).Draw(t, "otherval")
+			subject[name] = rapid.SampledFrom(C12Nums).Draw(t, "otherval")
 		case bool:
 			subject[name] = !old.(bool)
 		case []any:
-			subject[name] = c12StrArr(t, "otherval")
+			subject[name] = C12StrArr(t, "otherval")
 		default:
-			subject[name] = c12Str(t, "otherval")
+			subject[name] = C12Str(t, "otherval")
 		}
 	case "wrap":
 		subject[name] = []any{old}
 	case "wrap-other":
-		subject[name] = []any{c12Str(t, "wrapother"), "never-matches"}
+		subject[name] = []any{C12Str(t, "wrapother"), "never-matches"}
 	case "empty-arr":
 		subject[name] = []any{}
 	case "delete":
@@ -1024,29 +1022,29 @@ func c12MutateClaim(t *rapid.T, subject map[string]any, steps string) {
 	case "confuse":
 		switch old.(type) {
 		case string:
-			subject[name] = rapid.SampledFrom(c12Nums).Draw(t, "confuse")
+			subject[name] = rapid.SampledFrom(C12Nums).Draw(t, "confuse")
 		default:
-			subject[name] = c12Str(t, "confuse")
+			subject[name] = C12Str(t, "confuse")
 		}
 	case "object":
-		subject[name] = map[string]any{"name": c12Str(t, "objname")}
+		subject[name] = map[string]any{"name": C12Str(t, "objname")}
 	case "numarr":
-		subject[name] = c12NumArr(t, "numarr")
+		subject[name] = C12NumArr(t, "numarr")
 	}
 }
 
-var c12ForgeOps = []string{"swap-ids", "drop", "dup-retarget", "surplus-unknown", "surplus-other-desc", "retarget", "format",
+var C12ForgeOps = []string{"swap-ids", "drop", "dup-retarget", "surplus-unknown", "surplus-other-desc", "retarget", "format",
 	"wrap-vp", "nest-subject", "nest-vc", "alias-path", "exotic-path", "leave-envelope", "rename-id", "reverse", "jsonmut", "jsonmut"}
 
-func c12GenForge(t *rapid.T) c12Forge {
-	f := c12Forge{
-		Op: rapid.SampledFrom(c12ForgeOps).Draw(t, "forge.op"),
+func C12GenForge(t *rapid.T) C12Forge {
+	f := C12Forge{
+		Op: rapid.SampledFrom(C12ForgeOps).Draw(t, "forge.op"),
 		I:  rapid.IntRange(0, 7).Draw(t, "forge.i"),
 		J:  rapid.IntRange(0, 7).Draw(t, "forge.j"),
 	}
 	switch f.Op {
 	case "format":
-		f.S = rapid.SampledFrom([]string{"ldp_vc", "jwt_vc", "ldp_vp", "jwt_vp", "ldp", "jwt"}).Draw(t, "forge.format")
+		f.S = rapid.SampledFrom([]string{"ldp_vc", "jwt_vc", "ldp_vp", "jwt_vp", "ldp", "jwt"}).Draw(t, "forge.Format")
 	case "exotic-path":
 		f.S = rapid.SampledFrom([]string{"$.verifiableCredential[*]", "$..verifiableCredential", "$.verifiableCredential[-1]", "$.verifiableCredential[?(@.id)]",
 			"$.verifiableCredential[0,1]", "$..id", "$.*", "$"}).Draw(t, "forge.path")
